@@ -65,6 +65,7 @@ class Br:
         self.iarrs = set()
         self.farrs = set()
         self.qvar = None
+        self.coord_name = 'coord'
 
     def nexp(self, d):
         d = strip(d)
@@ -293,6 +294,14 @@ class Br:
                     c = strip(rr['inner'][0])
                     if c.get('kind') == 'ArraySubscriptExpr' and ref(c['inner'][0]) == 'coord':
                         return [f'LSetI {q(a)} {self.nexp(l["inner"][1])} {self.nexp(c["inner"][1])}']
+                    if c.get('kind') == 'CallExpr' and len(c['inner']) == 2:
+                        # static_cast<index>(std::lrint(c[k])): which overload is chosen is Gen_Nearest's business
+                        f = strip(c['inner'][0])
+                        fname = f.get('name') or f.get('referencedDecl', {}).get('name')
+                        arg = strip(c['inner'][1])
+                        if fname == 'lrint' and arg.get('kind') == 'ArraySubscriptExpr' and ref(arg['inner'][0]) == self.coord_name:
+                            return [f'LSetIRound {q(a)} {self.nexp(l["inner"][1])} {self.nexp(arg["inner"][1])}']
+                        raise Untranslatable(f'{a}[k] = static_cast<index>({fname}(...))')
                 raise Untranslatable(f'{a}[k] is not static_cast<index>(coord[k])')
             if a in self.farrs:
                 return [f'LSetF {q(a)} {self.nexp(l["inner"][1])} {self.fexp(r)}']
@@ -300,6 +309,12 @@ class Br:
         if k == 'ReturnStmt':
             if ref(s['inner'][0]) == 'rv':
                 return []
+            call = strip(s['inner'][0])
+            if call.get('kind') == 'CallExpr' and len(call['inner']) == 2:
+                callee = strip(call['inner'][0])
+                base = strip(callee['inner'][0]) if callee.get('inner') else {}
+                if callee.get('kind') == 'CXXDependentScopeMemberExpr' and callee.get('member') == 'at' and base.get('kind') == 'MemberExpr' and base.get('name') == 'm_backend' and ref(call['inner'][1]) in self.iarrs:
+                    return [f'LQuery {q(ref(call["inner"][1]))}']
             raise Untranslatable('return of something other than rv')
         raise Untranslatable(f'statement {k} {s.get("opcode", "")}')
 
@@ -390,11 +405,47 @@ def main(repo, out):
                 defs.append(f'(* {name}: NOT TRANSLATED -- {e} *)')
     except Untranslatable as e:
         rep['untranslatable'].append({'name': 'linear::non_owning_data_t::at', 'why': str(e)})
+    # nearest_neighbour::non_owning_data_t::at  (its own generated file: Gen_NearestAt.v next to the output)
+    ndefs = []
+    try:
+        nhdr = 'covfie/core/backend/transformer/nearest_neighbour.hpp'
+        SRC['text'] = open(os.path.join(repo, 'lib', 'core', nhdr), 'rb').read().decode('utf-8', 'replace')
+        with tempfile.TemporaryDirectory() as td:
+            tu = os.path.join(td, 'tu.cpp')
+            open(tu, 'w').write(f'#include <{nhdr}>\n')
+            p2 = subprocess.run(['clang++', '-std=c++20', '-DNDEBUG', '-I' + os.path.join(repo, 'lib', 'core'), '-fsyntax-only', '-Xclang', '-ast-dump=json',
+                                 '-Xclang', '-ast-dump-filter=covfie::backend::nearest_neighbour', tu], stdout=subprocess.PIPE, stderr=subprocess.PIPE, text=True, timeout=180)
+        nobjs, i = [], 0
+        while i < len(p2.stdout):
+            while i < len(p2.stdout) and p2.stdout[i].isspace():
+                i += 1
+            if i >= len(p2.stdout):
+                break
+            o, j = dec.raw_decode(p2.stdout, i)
+            nobjs.append(o)
+            i = j
+        nats = []
+        for o in nobjs:
+            find_methods(o, 'at', nats)
+        if len(nats) != 1:
+            raise Untranslatable(f'{len(nats)} definitions of nearest_neighbour::non_owning_data_t::at')
+        params = [x.get('name') for x in nats[0]['inner'] if x.get('kind') == 'ParmVarDecl']
+        br = Br()
+        br.coord_name = params[0] if params else 'c'
+        stmts = br.block([c for c in nats[0]['inner'] if c.get('kind') == 'CompoundStmt'][0])
+        ndefs.append('Definition nn_at : branch := {| br_body := [\n    ' + ';\n    '.join(stmts) + '];\n  br_helper := None |}.')
+        rep['branches'].append({'dimensions': 'nearest_neighbour::at', 'as': 'nn_at', 'statements': len(stmts)})
+    except Untranslatable as e:
+        rep['untranslatable'].append({'name': 'nearest_neighbour::non_owning_data_t::at', 'why': str(e)})
+        ndefs.append(f'(* nn_at: NOT TRANSLATED -- {e} *)')
     defs.append('(* the dimensions that have a specialised branch, in the order of the if-constexpr chain *)\nDefinition lin_specialised_dims : list nat := [' + '; '.join(map(str, dims)) + '].')
     out_txt = ('(* GENERATED by tools/cxx_linear.py from backend/transformer/linear.hpp -- do not edit.\n   The branches of linear::non_owning_data_t::at as terms of LinLang.v. *)\n'
                'From Coq Require Import String List.\nFrom Covfie Require Import LinLang.\nImport ListNotations.\nLocal Open Scope string_scope.\n\n' + '\n\n'.join(defs) + '\n')
     os.makedirs(os.path.dirname(out), exist_ok=True)
     open(out, 'w').write(out_txt)
+    open(os.path.join(os.path.dirname(out), 'Gen_NearestAt.v'), 'w').write(
+        '(* GENERATED by tools/cxx_linear.py from backend/transformer/nearest_neighbour.hpp -- do not edit.\n   nearest_neighbour::non_owning_data_t::at as a term of LinLang.v. *)\n'
+        'From Coq Require Import String List.\nFrom Covfie Require Import LinLang.\nImport ListNotations.\nLocal Open Scope string_scope.\n\n' + '\n\n'.join(ndefs) + '\n')
     SRC['text'] = None
     return rep
 
